@@ -15,6 +15,7 @@ static int v_next_attr(struct hwloc__xml_import_state_s *state, char **namep, ch
   __CPROVER_assume(k < NPOOL(attr_pool));
   *namep = (char *)attr_pool[k];
   *valuep = verif_exact_string(XV);
+  verif_num_is_count = (k == 0);          /* attr_pool[0] == "nbobjs": see the number parser in the driver */
   return 0;
 }
 static int v_find_child(struct hwloc__xml_import_state_s *state, struct hwloc__xml_import_state_s *childstate, char **tagp)
@@ -25,7 +26,7 @@ static int v_find_child(struct hwloc__xml_import_state_s *state, struct hwloc__x
   children_left--;
   __CPROVER_assume(k < NPOOL(tag_pool));
   childstate->parent = state; childstate->global = state->global;
-  attrs_left[1] = XA;
+  attrs_left[1] = XA2;
   *tagp = (char *)tag_pool[k];
   return 1;
 }
@@ -34,6 +35,7 @@ static void v_close_child(struct hwloc__xml_import_state_s *state) { (void)state
 static int v_get_content(struct hwloc__xml_import_state_s *state, const char **beginp, size_t expected_length)
 {
   (void)state; (void)expected_length;
+  verif_num_is_count = 0;
   if (nondet_bool()) return -1;
   *beginp = verif_exact_string(XB);
   return nondet_bool() ? 1 : 0;
